@@ -290,7 +290,7 @@ for _o in (1, 2):
             id=f"core._build_Q[order={_o}]",
             module="speckit/core.py",
             func="_build_Q",
-            props=["C08", "C05"],
+            props=["C01", "C08", "C05"],
             params={"L": "int", "order": ("const", _o)},
             requires=["L >= 1"],
             ensures={
